@@ -81,6 +81,7 @@ SIZES = {"quick": {"deploy": 160, "pause": 160, "rollout": 128, "own": 240, "hea
                       "duelown": 30000, "dueldrain": 30000, "duelprobe": 20000, "duelstop": 15000}}
 SIMS = {"quick": 30, "thorough": 500}
 MC_TIMEOUT = {"quick": 240, "thorough": 2400}
+AUX_TIMEOUT = {"quick": 300, "thorough": 1500}   # witness / no-exemption / variant / control / simulate runs (short, but the machine is busy)
 MC_HEAP_MB = {"quick": 4096, "thorough": 8192}     # exhaustive runs; every other TLC process gets 2 GB (3 GB for trace validation)
 DTRACE_LIMIT = {"quick": 96, "thorough": None}   # scenarios validated against the design model per run
 
@@ -104,15 +105,15 @@ def design_runs(family, tier, seed):
     for w, wcfg in mdl["witnesses"]:
         wd2 = vlib.spec_copy(family + w)
         name = vlib.cfg_with(wd2, wcfg, "W_%s.cfg" % w, invariants=[w], constants={"AllowBad": "TRUE"} if family == "deploy" else None)
-        jobs.append(dict(kind="witness", goal=w, cfg=wcfg, proc=vlib.start_tlc(wd2, mdl["module"], name, workers=2, timeout=200), wd=wd2))
+        jobs.append(dict(kind="witness", goal=w, cfg=wcfg, proc=vlib.start_tlc(wd2, mdl["module"], name, workers=2, timeout=AUX_TIMEOUT[tier]), wd=wd2))
     for var in mdl["variants"]:
         wd2 = vlib.spec_copy(family + var["name"])
         name = vlib.cfg_with(wd2, var["cfg"], "V_%s.cfg" % var["name"], invariants=var["invariants"], constants=var["constants"])
-        jobs.append(dict(kind="variant", goal=var["name"], cfg=var["cfg"], proc=vlib.start_tlc(wd2, mdl["module"], name, workers=2, timeout=200), wd=wd2))
+        jobs.append(dict(kind="variant", goal=var["name"], cfg=var["cfg"], proc=vlib.start_tlc(wd2, mdl["module"], name, workers=2, timeout=AUX_TIMEOUT[tier]), wd=wd2))
     for inv, ncfg in mdl.get("no_exempt", []):
         wd2 = vlib.spec_copy(family + "ne" + inv)
         name = vlib.cfg_with(wd2, ncfg, "NE_%s.cfg" % inv, invariants=[inv], constants={"Exempt": "FALSE"})
-        jobs.append(dict(kind="noexempt", goal=inv, cfg=ncfg, proc=vlib.start_tlc(wd2, mdl["module"], name, workers=2, timeout=200), wd=wd2))
+        jobs.append(dict(kind="noexempt", goal=inv, cfg=ncfg, proc=vlib.start_tlc(wd2, mdl["module"], name, workers=2, timeout=AUX_TIMEOUT[tier]), wd=wd2))
     # liveness under fairness (no symmetry, no state constraint), and its negative control
     live = mdl.get("live", {})
     for lcfg in live.get(tier, []):
@@ -121,10 +122,10 @@ def design_runs(family, tier, seed):
     if live.get("control"):
         wd2 = vlib.spec_copy(family + "livectl")
         jobs.append(dict(kind="live-control", goal=live["control"], cfg=live["control"],
-                         proc=vlib.start_tlc(wd2, mdl["module"], live["control"], workers=2, timeout=200), wd=wd2))
+                         proc=vlib.start_tlc(wd2, mdl["module"], live["control"], workers=2, timeout=AUX_TIMEOUT[tier]), wd=wd2))
     for ccfg, inv in mdl.get("controls", []):
         wd2 = vlib.spec_copy(family + "ctl" + ccfg)
-        jobs.append(dict(kind="control", goal=inv, cfg=ccfg, proc=vlib.start_tlc(wd2, mdl["module"], ccfg, workers=2, timeout=200), wd=wd2))
+        jobs.append(dict(kind="control", goal=inv, cfg=ccfg, proc=vlib.start_tlc(wd2, mdl["module"], ccfg, workers=2, timeout=AUX_TIMEOUT[tier]), wd=wd2))
     for pf in mdl.get("proofs", []):
         # TLAPS: the invariant is inductive for every value of the constants (unbounded counterpart of the TLC runs)
         wd2 = vlib.spec_copy(family + "proof")
@@ -137,7 +138,7 @@ def design_runs(family, tier, seed):
     # random behaviours of the design model
     wd3 = vlib.spec_copy(family + "sim")
     simp = os.path.join(wd3, "sim")
-    p = vlib.start_tlc(wd3, mdl["module"], mdl["sim_cfg"], workers=1, timeout=200,
+    p = vlib.start_tlc(wd3, mdl["module"], mdl["sim_cfg"], workers=1, timeout=AUX_TIMEOUT[tier],
                        extra=["-simulate", "file=%s,num=%d" % (simp, SIMS[tier]), "-depth", "70", "-seed", str(seed)])
     jobs.append(dict(kind="sim", cfg=mdl["sim_cfg"], proc=p, wd=wd3, prefix=simp))
     return jobs
